@@ -390,6 +390,12 @@ class MustFacts:
             g = norm.assign_fact(a.targets[0], a.value, self.resolver)
             if g is not None:
                 facts = facts | {g}
+        if n.kind == "stmt" and isinstance(a, ast.Assign) and len(a.targets) == 1 and isinstance(a.targets[0], ast.Subscript) \
+                and not isinstance(a.targets[0].slice, ast.Slice):
+            # d[k] = v establishes `k in d`
+            t = a.targets[0]
+            probe = ast.Compare(left=t.slice, ops=[ast.In()], comparators=[t.value])
+            facts = facts | frozenset(norm.atoms(probe, True, self.resolver))
         return facts
 
     def _solve(self):
